@@ -184,6 +184,12 @@ class Executor:
             text = ast.unparse(e)
             if text in self.bindings:
                 return [Res("val", self.bindings[text], st)]
+        hook = self.spec.globals.get("__expr__") if isinstance(e, (ast.ListComp, ast.GeneratorExp, ast.SetComp, ast.DictComp)) else None
+        if hook is not None:
+            # state-dependent model of one comprehension, identified by its exact source text (a change of the text un-binds it)
+            v = hook(self, st, text or ast.unparse(e))
+            if v is not None:
+                return [Res("val", v, st)]
         m = getattr(self, "e_" + type(e).__name__, None)
         if m is None:
             raise Unsupported(f"expression {type(e).__name__}: {ast.unparse(e)[:60]}")
